@@ -37,7 +37,7 @@ Definition obs_eqb (a b : coord_obs) : bool :=
     list_eqb Z.eqb (ob_scales a) (ob_scales b).
 
 (* ---- all outcomes of the model over every schedule ---- *)
-Definition enum_budget : nat := 6000.
+Definition enum_budget : nat := 60 * 100.
 Definition outcomes (o : opts) (i : input) : list output * bool :=
   enum_all (fun sch => cycle_traced o i sch) enum_budget.
 
@@ -232,3 +232,27 @@ Definition c04_case (c : coord_case) := c04_ok (cc_opts c) (cc_input c) (cc_obs 
 Definition c05_case (c : coord_case) := c05_ok (cc_input c) (cc_obs c).
 Definition c07_case (c : coord_case) := c07_bounds_ok (cc_opts c) (cc_obs c) && c07_used_ok (cc_opts c) (cc_input c) (cc_obs c).
 Definition c08_case (c : coord_case) := c08_ok (cc_input c) (cc_obs c).
+
+(* ---- two replicas in one run (C19): replica B alone, and B coordinated after replica A ---- *)
+Record coord2_case := {
+  c2_opts : opts;
+  c2_a : option input;          (* None: A's shard listing fails *)
+  c2_b : input;
+  c2_obs_a : coord_obs;         (* what A's shards saw (ignored when listing fails) *)
+  c2_b_alone : coord_obs;
+  c2_b_with : coord_obs;
+}.
+Definition member (o : opts) (i : input) (ob : coord_obs) : bool * bool :=
+  let (outs, complete) := outcomes o i in (existsb (fun out => obs_eqb (obs_of out) ob) outs, complete).
+Definition agree_one (o : opts) (i : input) (ob : coord_obs) : bool :=
+  let (m, complete) := member o i ob in m || negb complete.
+Definition coord2_agree (c : coord2_case) : bool :=
+  agree_one (c2_opts c) (c2_b c) (c2_b_alone c) && agree_one (c2_opts c) (c2_b c) (c2_b_with c) &&
+  match c2_a c with Some ia => agree_one (c2_opts c) ia (c2_obs_a c) | None => true end.
+(* the property on the implementation: in scenarios whose outcome does not depend on iteration order,
+   B's shards receive exactly the same with and without A *)
+Definition confluent (o : opts) (i : input) : bool :=
+  let (outs, complete) := outcomes o i in
+  complete && match outs with [] => true | x :: r => forallb (fun y => obs_eqb (obs_of x) (obs_of y)) r end.
+Definition c19_case (c : coord2_case) : bool :=
+  negb (confluent (c2_opts c) (c2_b c)) || obs_eqb (c2_b_alone c) (c2_b_with c).
